@@ -34,7 +34,7 @@ NODE_NAMES = ["n0", "9", "B", "a"]                # '9' < 'B' < 'a' < 'n0'
 
 
 def budget_s(tier):
-    return 500 if tier == "quick" else 3600
+    return 500 if tier == "quick" else 7200
 
 
 def shards(tier):
@@ -50,11 +50,13 @@ def shards(tier):
                             ("net", n, b, ti, kinds, ch[0], ch[-1] + 1, "full" if T or b < 3 else "reduced")))
     for (n, b) in ([(3, 4), (4, 4)] if T else [(3, 4)]):
         topos = sp.topologies(n, b)
-        k4 = cm.KINDS4 if T else cm.KINDS3
+        k4 = cm.KINDS4 if (T and n == 3) else cm.KINDS3
         allk = list(itertools.product(k4, repeat=b))
+        mode4 = "ids_order" if (T and n == 3) else "ids_order_quick"
         for ti in range(len(topos)):
             for ch in sp.chunks(range(len(allk)), 2):
-                out.append(("solver N(%d,%d)|K%d ids x order x reversal" % (n, b, len(k4)), ("net", n, b, ti, k4, ch[0], ch[-1] + 1, "ids_order" if T else "ids_order_quick")))
+                out.append(("solver N(%d,%d)|K%d %s" % (n, b, len(k4), "ids x order x reversal{none,single,all}" if mode4 == "ids_order" else "ids x order{given,reversed} x reversal{none,all}"),
+                            ("net", n, b, ti, k4, ch[0], ch[-1] + 1, mode4)))
     pk = ("R", "C", "L", "Vac", "Iac") if T else ("R", "C", "Vac", "Iac")
     for (n, b) in [(2, 2), (2, 3), (3, 3)]:
         topos = sp.topologies(n, b)
@@ -243,7 +245,8 @@ def run_net(desc, res):
             revs = sorted({0, 2 ** b - 1} | {1 << k for k in range(b)})
             id_order = [(ident_p, ident_p), (rev_p, rev_p)] + [(i, ident_p) for i in allp if i != ident_p] + [(ident_p, o) for o in allp if o != ident_p]
         elif mode == "ids_order":
-            node_perms, refs, revs = [tuple(range(n)), tuple(reversed(range(n)))], [0, n - 1], list(range(2 ** b))
+            node_perms, refs = [tuple(range(n)), tuple(reversed(range(n)))], [0, n - 1]
+            revs = sorted({0, 2 ** b - 1} | {1 << k for k in range(b)})
             id_order = [(i, o) for i in allp for o in allp]
         else:
             node_perms, refs, revs = [tuple(range(n)), tuple(reversed(range(n)))], [0, n - 1], [0, 2 ** b - 1]
